@@ -13,15 +13,15 @@ def _not_regions_sync(body, b, t):
     return not any(n.startswith("rawdb::regions::Regions::") for n in names(t))
 
 
-FILE_SYNC = M(r"std::fs::File::sync_(data|all)", reach=True, where=_not_regions_sync, label="File::sync_data (data file)")
+FILE_SYNC = M(r"std::fs::File::sync_(data|all)", reach="must", where=_not_regions_sync, label="File::sync_data (data file)")
 REGIONS_SYNC = M(r"rawdb::regions::Regions::sync_data", reach=True, label="Regions::sync_data")
-MARK_CLEAN = M(r"rawdb::region_metadata::RegionMetadata::mark_clean")
-PROMOTE = M(r"rawdb::layout::Layout::promote_pending_holes")
+MARK_CLEAN = M(r"rawdb::region_metadata::RegionMetadata::mark_clean", reach=True)
+PROMOTE = M(r"rawdb::layout::Layout::promote_pending_holes", reach=True)
 INSERT_HOLE = M(r"rawdb::layout::Layout::insert_hole")
 DB_WRITE = M(r"rawdb::Database::(write|copy)")
-MARK_DIRTY = M(r"rawdb::region::Region::(mark_dirty|mark_dirty_abs)")
+MARK_DIRTY = M(r"rawdb::region::Region::(mark_dirty|mark_dirty_abs)", reach="must")
 META_SET = M(r"rawdb::region_metadata::RegionMetadata::set_(start|len|reserved|id)")
-WRITE_IF_DIRTY = M(r"rawdb::region_metadata::RegionMetadata::write_if_dirty")
+WRITE_IF_DIRTY = M(r"rawdb::region_metadata::RegionMetadata::write_if_dirty", reach="must")
 PUNCH = M(r"rawdb::hole_punch::HolePunch::punch")
 LAYOUT_FROM = "<rawdb::layout::Layout as core::convert::From<&rawdb::regions::Regions>>::from"
 
@@ -102,10 +102,13 @@ def flush_before_punch(ctx, chk, prefix):
     if nsites < 2:
         raise AnchorMissing("expected 2 punch sites in punch_holes (+closure), found %d" % nsites)
 
+import props.anchors as anchors
+
 
 def run(ctx, chk):
     O, P = ctx.O, ctx.P
     # B05.1 Database::flush
+    anchors.check(ctx, chk, ['regions_sync', 'regions_flush', 'write_if_dirty', 'regions_write_at', 'write_to_mmap', 'db_write', 'db_copy', 'mark_dirty', 'mark_dirty_abs', 'take_dirty', 'remove_region_pending', 'promote_reads_pending', 'promote_inserts', 'punch'])
     fb = O.body(FLUSH)
     clean_sites = O.need_sites(fb, MARK_CLEAN, 1)
     committing_sync = M(r"rawdb::regions::Regions::sync_data", reach=True,
@@ -123,7 +126,7 @@ def run(ctx, chk):
     rule_precedes(ctx, chk, "B05.2", RFLUSH, FILE_SYNC, REGIONS_SYNC,
                   "data file must be synced before the metadata file (Region::flush)")
     # B05.3 who may promote / insert holes
-    bad, n = O.only_callers(PROMOTE, {FLUSH})
+    bad, n = O.only_callers(M(r"rawdb::layout::Layout::promote_pending_holes"), {FLUSH})
     chk.oblige("B05.3a only_callers(promote_pending_holes) = {Database::flush} [%d sites]" % n, not bad and n >= 1,
                detail={"offenders": bad}, key="B05.3a|only_callers|promote_pending_holes",
                msg="pending holes may only be promoted by Database::flush")
